@@ -341,6 +341,30 @@ def run_native(ob: Obligation, args: dict, known: Optional[list] = None):
         return ("fail", "unexpected-exception", "%s: %s\n%s" % (type(e).__name__, e, traceback.format_exc(limit=12)))
 
 
+def _quick_confirm(ob: Obligation, failure: dict) -> bool:
+    """Does the counterexample fail the same check when the harness is run natively in a fresh interpreter?"""
+    import subprocess
+    import tempfile
+
+    try:
+        with tempfile.NamedTemporaryFile("w", suffix=".json", dir="/dev/shm", delete=False) as fh:
+            json.dump({"property": ob.prop, "obligation": ob.name, "label": failure["label"], "args": failure["args"], "info": None,
+                       "trace": "", "skip_real": True}, fh)
+            path = fh.name
+        try:
+            p = subprocess.run([sys.executable, "-m", "vp.run", "replay", path, "--json"], capture_output=True, text=True, timeout=300,
+                               cwd=os.path.dirname(os.path.dirname(os.path.abspath(__file__))))
+        finally:
+            os.unlink(path)
+        for line in p.stdout.splitlines():
+            if line.startswith("REPLAY-JSON "):
+                out = json.loads(line[len("REPLAY-JSON "):])
+                return out.get("outcome") == "fail" and out.get("label") == failure["label"]
+    except Exception:  # noqa
+        return True  # cannot tell here: let the runner's own replay decide
+    return False
+
+
 def explore(ob: Obligation, fixed: dict, budget_s: float, known: list, seed: int = 0,
             max_failures: int = 3, want_samples: int = 4) -> JobResult:
     """Symbolically explore one obligation with some parameters fixed concretely."""
@@ -499,7 +523,13 @@ def explore(ob: Obligation, fixed: dict, budget_s: float, known: list, seed: int
                 _analysis, exhausted = space.bubble_status(CallAnalysis(tree_status))
             if exhausted:
                 break
-            if len(res.failures) >= max_failures:
+            if res.failures and "confirmed" not in res.failures[-1]:
+                # replay the newest counterexample at once in a fresh interpreter: only failures that reproduce there count
+                # towards the limit that ends the exploration - a counterexample that depends on what EARLIER paths left in
+                # this worker process (state a change under test may have added) must not hide the ones that do reproduce
+                res.failures[-1]["confirmed"] = _quick_confirm(ob, res.failures[-1])
+            confirmed = sum(1 for f in res.failures if f.get("confirmed"))
+            if confirmed >= max_failures or len(res.failures) >= max_failures + 9:
                 break
     except NotDeterministic as e:
         hard_error = "NotDeterministic: %s" % e
